@@ -178,6 +178,63 @@ def graph(x, p):
     x.check('picotool parsed the built code to its end', end_ok)
 
 
+def cli(x, p):
+    """`p8tool build --lua main.lua [--lua-path P] out.p8` through tool.main
+    with the package present in any subset of three places; the load path
+    comes from the default, --lua-path or PICO8_LUA_PATH."""
+    from props import clikit
+    cfg = x.choice('config', ['default', 'option', 'env', 'option+env'])
+    places = ['/w/lib/p1.lua', '/w/r/p1.lua', '/w/env/p1.lua']
+    present = [x.bool('in_lib'), x.bool('next_to_main'), x.bool('in_env')]
+    main = b'local p=require("p1")\nx=1\n'
+    files = {'/w/r/main.lua': main}
+    texts = {}
+    for pl, pr, tag in zip(places, present, (b'lib', b'r', b'env')):
+        texts[pl] = b'function f() end\nreturn "' + tag + b'"\n'
+        if pr:
+            files[pl] = texts[pl]
+    fs = clikit.MemFS(x, files)
+    argv = ['build', '--lua', '/w/r/main.lua']
+    if cfg in ('option', 'option+env'):
+        argv += ['--lua-path', '/w/lib/?.lua;?.lua']
+        order = ['/w/lib/p1.lua', '/w/r/p1.lua']
+    elif cfg == 'env':
+        order = ['/w/env/p1.lua']
+    else:
+        order = ['/w/r/p1.lua']
+    if cfg in ('env', 'option+env'):
+        fs.env['PICO8_LUA_PATH'] = '/w/env/?.lua'
+    argv.append('/w/out.p8')
+    rc, exc = clikit.run_main(argv)
+    chosen = None
+    for pl in order:
+        if pl in files:
+            chosen = pl
+            break
+    if chosen is None:
+        x.tag('not found')
+        x.check('a require() whose file cannot be found fails the build',
+                Or(exc is not None, rc != 0))
+        x.check('and no cart is written', len(fs.opened_for_write) == 0)
+        return
+    x.tag('found')
+    x.check('build succeeds', And(exc is None, rc == 0),
+            info=repr((rc, exc))[:160])
+    if exc is not None or rc != 0:
+        return
+    x.check('only the package the load path selects is opened',
+            [n for n in fs.opened_for_read if n.endswith('p1.lua')] ==
+            [chosen])
+    got = clikit.lua_of(fs.files['/w/out.p8'])
+    x.out('code', got)
+    exp = b'package={loaded={},_c={}}\npackage._c["p1"]=function()\n' + \
+        texts[chosen] + b'end\n' + \
+        b''.join(build.REQUIRE_LUA_PREAMBLE_REQUIRE) + main
+    x.check('the written cart holds the package table, the selected '
+            'package, the loader and the main program',
+            sig_tokens(got) == sig_tokens(exp))
+
+
 def bad_args(x, p):
     form = x.choice('form', [b'require()', b'require(1)', b'require("p1",1)',
                              b'require("p1",{a=1})',
@@ -211,4 +268,5 @@ HARNESSES = [
             thorough=[dict(Q), dict(Q, sub='lib/', gl2=True),
                       dict(Q, cycle=True, gl2=True)]),
     Harness('bad_args', bad_args, quick=[Q]),
+    Harness('cli', cli, quick=[Q]),
 ]
